@@ -15,6 +15,7 @@ import (
 	"os/exec"
 	"runtime"
 	"runtime/debug"
+	"strconv"
 	"strings"
 	"sync"
 	"time"
@@ -284,6 +285,9 @@ type item struct {
 func Run(cfg Config, rep *report.Reporter) Result {
 	if cfg.Workers <= 0 {
 		cfg.Workers = runtime.NumCPU()
+		if v, err := strconv.Atoi(os.Getenv("VERIF_WORKERS")); err == nil && v > 0 {
+			cfg.Workers = v
+		}
 	}
 	res := Result{Config: cfg.Name}
 	workers := make([]*worker, 0, cfg.Workers)
